@@ -61,7 +61,11 @@ var c07Kinds = map[string]c07Kind{
 	"type-error-lazy4":   {src: "{% assign v = \"a b c\" | truncatewords: \"two\" %}", cause: "typeerror"},
 	"type-error-assign":  {src: "{% assign v = \"x\" |%NL% times: 2 %}", cause: "typeerror"},
 	"type-error-if":      {src: "{% if \"a\" | plus: 1 %}x{% endif %}", cause: "typeerror"},
-	"offset-not-int":     {src: "{% for q in (1..2) offset: \"x\" %}x{% endfor %}"},
+	// a method of a bound struct that returns an error: the render fails with it
+	"method-error":     {src: "{{ me.Fail |%NL% upcase }}", names: "verif-sentinel", cause: "sentinel"},
+	"method-error-if":  {src: "{% if me.Fail %}x{% endif %}", names: "verif-sentinel", cause: "sentinel"},
+	"field-func-error": {src: "{% assign v = me.F %}", names: "verif-sentinel", cause: "sentinel"},
+	"offset-not-int":   {src: "{% for q in (1..2) offset: \"x\" %}x{% endfor %}"},
 	// a clause of a block is a tag of its own: it is the innermost failing tag
 	"filter-error-elsif": {src: "{% if false %}a%NL%{% elsif false %}b\n%AT%{% elsif 1 | fail %}c{% endif %}", names: "verif-sentinel", cause: "sentinel"},
 	"type-error-elsif":   {src: "{% if false %}a\n%NL%%AT%{% elsif \"a\" | plus: 1 %}c{% else %}d{% endif %}", cause: "typeerror"},
@@ -185,6 +189,13 @@ func reaches(err error, pred func(error) bool) bool {
 	return false
 }
 
+// a bound struct with a method, and a function-valued field, that fail
+type c07Failing struct {
+	F func() (string, error)
+}
+
+func (c07Failing) Fail() (string, error) { return "", errSentinel }
+
 var c07Locate = hx.Define("c07.locate", func(c *c07Case, s *hx.Sub) *hx.Violation {
 	src, failAt, ok := c.build()
 	if !ok {
@@ -220,7 +231,7 @@ var c07Locate = hx.Define("c07.locate", func(c *c07Case, s *hx.Sub) *hx.Violatio
 			tpl, perr = eng.ParseTemplateLocation([]byte(src), c.Path, c.Start)
 		}
 		if perr == nil {
-			out, rerr = tpl.Render(map[string]any{"a": 1})
+			out, rerr = tpl.Render(map[string]any{"a": 1, "me": c07Failing{F: func() (string, error) { return "", errSentinel }}})
 		}
 	}); pi != nil {
 		return hx.V("panic@"+pi.Site, "%q: %v", src, pi)
